@@ -185,6 +185,7 @@ func HarnessC08Diagnosed() {
 			s("call"), yMap(s("uses"), s("./.github/workflows/callee.yml"),
 				s("with"), yMap(s(nm("k1", "retry_count")), s("${{ 'three' }}"), s(nm("k2", "flag")), s("${{ 'x' }}")),
 				s("secrets"), yMap(s(nm("k3", "token")), s("v"))),
+			s(nm("k6", "loop")), yMap(s("needs"), ySeq(s("loop")), s("runs-on"), s("ubuntu-latest"), s("steps"), ySeq(yMap(s("run"), s("echo ${{ needs.loop.result }}")))),
 			s("use"), yMap(s("needs"), ySeq(s("call")), s("runs-on"), s("ubuntu-latest"), s("steps"), ySeq(
 				yMap(s("run"), s("echo ${{ needs.call.outputs."+nm("k4", "result")+" }} ${{ needs.call.outputs.nope }}")),
 				yMap(s("uses"), s("actions/checkout@v4"), s("with"), yMap(s(nm("k5", "ref")), s("x"), s("nope"), s("y"))),
